@@ -11,7 +11,7 @@ from math import pi
 
 import numpy as np
 
-from vlib import paths
+from vlib import paths, argrep
 paths.setup()
 from vlib.runner import result, HELD, VIOL, SKIP, INCO  # noqa: E402
 from vlib import refmath as rm  # noqa: E402
@@ -131,8 +131,13 @@ def run_case(case):
                 phi_in = phi.astype(np.float32)
             else:
                 phi_in = phi.copy()
-            got = np.full((nz, nth), np.nan)
-            op.parallel_gradient(phi_in, i, got)
+            rep_in = argrep.kinds(2)[(case["seed"] + I) % len(argrep.kinds(2))]
+            rep_out = argrep.kinds(2)[(case["seed"] // 8 + 2 * I) % len(argrep.kinds(2))]
+            phi_in = argrep.view_of(phi_in, rep_in)                        # potential and result array: fresh C-contiguous, Fortran-ordered, or a
+            held = argrep.view_of(np.full((nz, nth), np.nan), rep_out)     # window / stride / plane of a larger block (the driver passes np.real views)
+            op.parallel_gradient(phi_in, i, held)
+            got = np.array(held)
+            ev["arguments_not_c_contiguous"] = ev.get("arguments_not_c_contiguous", 0) + int(rep_in != "c") + int(rep_out != "c")
             cls.add("%s/layout-%s/phi-%s" % (base, ("r-first", "r-second", "r-last-undistributed", "r-first")[lkind], ("float64", "float64", "float64", "int64", "float32")[pk]))
             bz = float(pg.bz(eta[0][I], iota_all[I], R0))
             if abs(iota_all[I]) * (n // 2) * dz / R0 > 2 * pi:
